@@ -24,15 +24,16 @@ pub fn prop() -> Prop {
     }
 }
 
-const ATOMS: [&str; 46] = [
+const ATOMS: [&str; 47] = [
     ".nokey", "null", "true", "false", "0", "1", "2", "3", "4", "-1", "1.5", "-0.5", "9007199254740992", "-9223372036854775808", "18446744073709551615", "\"\"", "\"a\"", "\"ab\"", "\"é\"", "\"aé😃\"", "\"12\"", "\"1e3\"",
     "\"a,b\"", "\"[1]\"", "[]", "[1]", "[1, 2, 3]", "[3, 1, 2]", "[\"a\", \"b\"]", "[[1], [2]]", "[1, \"a\", null]", "[true, false]", "{}", "{\"a\": 1}", "{\"a\": 1, \"b\": 2, \"c\": 3}",
     "{\"b\": 2, \"a\": 1}", "[\"b\", \"a\", \"b\"]", "{\"k\": \"é\", \"l\": [1, 2]}", "[\"\", \"a\", \"\"]",
     "{\"a\": 1, \"ab\": 2, \"\": 3}", "[[], {}, \"\"]", "\"null\"", "\"true\"", "[{\"a\": []}, {\"a\": {}}]", "{\"a\": 1, \"b\": 2}",
     "[{\"a\": 1, \"b\": 2}, 3, {\"b\": 2, \"a\": 1}, 3.0, {\"a\": 1, \"b\": 2}]",
+    "[1, \"a\", 2, [3], 4]",
 ];
 
-const BODIES: [&str; 12] = [".", "(+ . 1)", "(len .)", "(string? .)", "true", "^", "(number? .)", ".nokey", "(stringify .)", "(> . 1)", "(concat . \"x\")", "null"];
+const BODIES: [&str; 14] = ["(+ (default .so_far 100) (default .value .))", "(? (number? (default .value .)) (default .value .) .nokey)", ".", "(+ . 1)", "(len .)", "(string? .)", "true", "^", "(number? .)", ".nokey", "(stringify .)", "(> . 1)", "(concat . \"x\")", "null"];
 
 /// additional atoms for particular functions (all positions)
 pub fn extra_atoms(name: &str) -> Vec<&'static str> {
